@@ -6,7 +6,7 @@ from fractions import Fraction
 
 from ..astu import U, dotted, walk_shallow, call_name, calls_in, linform, lin_str, monomial, mono_str, names_in, kwarg
 from ..core import AnalysisError, Mutant, Rule, Twin
-from ..idioms import subscript_stores, is_not_in_test, for_loops, target_names, iter_is_unfiltered
+from ..idioms import subscript_stores, is_not_in_test, for_loops, target_names, iter_is_unfiltered, none_default, yield_counts
 
 ID = "C03"
 CHEM = "chempy/chemistry.py"
@@ -122,6 +122,8 @@ def r1_stoich_views(ctx):
         g = c.generators[0]
         if U(g.iter) == "self.rxns" and not g.ifs and U(c.elt).replace("(", "").replace(")", "") == "getattr%s, attrkeys" % U(g.target):
             ok = True
+    d = none_default(fn, "keys")
+    ctx.check(d is not None and U(d) == "self.substances.keys()", a, "default-keys", "keys must default to self.substances.keys() via `if keys is None:`; found %s" % (U(d) if d is not None else None), node=fn)
     ctx.check(ok, a, "row-per-reaction", "_stoichs must build one row getattr(rxn, attr)(keys) for every reaction in self.rxns", node=fn)
     for w, m in (("net_stoichs", "net_stoich"), ("all_reac_stoichs", "all_reac_stoich"), ("active_reac_stoichs", "active_reac_stoich"),
                  ("all_prod_stoichs", "all_prod_stoich"), ("active_prod_stoichs", "active_prod_stoich")):
@@ -211,11 +213,22 @@ def r2_active_product(ctx):
             c, p = monomial(y.value)
         except Exception:
             continue
-        if acc and set(p) == {acc, "rxn.param"} and c == 1:
+        if acc and p == {acc: {"1": F1}, "rxn.param": {"1": F1}} and c == 1:
             ok = True
     ctx.check(ok, a, "rate=k*product", "the plain-constant arm must yield product * rxn.param", node=fn)
     outer = [lp for lp in for_loops(fn) if "rsys.rxns" in U(lp.iter)]
     ctx.check(len(outer) == 1 and U(outer[0].iter) in ("enumerate(rsys.rxns)", "rsys.rxns"), a, "all-reactions", "outer loop is %s" % ([U(x.iter) for x in outer]), node=fn)
+    if len(outer) == 1:
+        # rates[i] belongs to reaction i (dCdt_list indexes them that way): each pass yields exactly once or raises
+        cnt = {c[1] if isinstance(c, tuple) else c for c in yield_counts(outer[0].body)}
+        ctx.check(cnt == {1}, a, "one-rate-per-reaction", "every pass of the reaction loop must yield exactly one rate (or raise); possible yield counts per pass: %s" % sorted(cnt, key=str), node=outer[0])
+        # RateExpr arm: a MassAction is evaluated with substance key -> concentration (aligned by zip), anything else is refused
+        zs = [c for c in ast.walk(outer[0]) if isinstance(c, ast.Call) and call_name(c) == "zip"]
+        ok = len(zs) == 1 and [U(x) for x in zs[0].args] == ["rsys.substances.keys()", "conc"]
+        ctx.check(ok, a, "keys-zip-conc", "rate expressions must see {substance key: concentration} built as zip(rsys.substances.keys(), conc); found %s" % [U(z) for z in zs], node=outer[0])
+        ys2 = [y for y in ys if isinstance(y.value, ast.Call) and U(y.value.func) == "rxn.param"]
+        ok = len(ys2) == 1 and kwarg(ys2[0].value, "reaction") is not None and U(kwarg(ys2[0].value, "reaction")) == "rxn"
+        ctx.check(ok, a, "expr-evaluated-for-rxn", "a MassAction parameter must be evaluated as rxn.param(<variables>, reaction=rxn)", node=outer[0])
     # order
     fn = ctx.func(CHEM, "Reaction.order")
     ret = [n for n in walk_shallow(fn) if isinstance(n, ast.Return)][-1]
@@ -249,8 +262,18 @@ def r3_rate_alignment(ctx):
              and kwarg(n.value, "backend") is not None and U(n.value.args[0]) == "variables" for n in asg)
     ctx.check(ok, a, "ratex-evaluated-for-self", "srat must be ratex(variables, backend=backend, reaction=self)", node=fn)
     # default ratex / keys
-    t = U(fn)
-    ctx.check("ratex = self.rate_expr()" in t and "substance_keys = self.keys()" in t, a, "defaults", "default rate expression / key list changed", node=fn)
+    dflt = {n: none_default(fn, n) for n in ("variables", "substance_keys", "ratex")}
+    got = {n: (U(v) if v is not None else None) for n, v in dflt.items()}
+    ctx.check(got == {"variables": "{}", "substance_keys": "self.keys()", "ratex": "self.rate_expr()"}, a, "defaults",
+              "omitted arguments must default as `if x is None: x = ...` to {} / self.keys() / self.rate_expr(); found %s" % got, node=fn)
+    # srat is bound on both arms of the Expr test: a plain number passed as ratex is the rate itself
+    arms = [n for n in walk_shallow(fn) if isinstance(n, ast.If) and isinstance(n.test, ast.Call) and call_name(n.test) == "isinstance" and U(n.test.args[0]) == "ratex"]
+    ok = len(arms) == 1 and U(arms[0].test.args[1]) == "Expr"
+    if ok:
+        b = [x for x in arms[0].body if isinstance(x, ast.Assign) and U(x.targets[0]) == "srat"]
+        o = [x for x in arms[0].orelse if isinstance(x, ast.Assign) and U(x.targets[0]) == "srat"]
+        ok = len(b) == 1 and len(o) == 1 and U(o[0].value) == "ratex" and isinstance(b[0].value, ast.Call)
+    ctx.check(ok, a, "srat-both-arms", "srat must be ratex(...) for an Expr and ratex itself otherwise", node=fn)
     re_ = ctx.func(CHEM, "Reaction.rate_expr")
     t = U(re_)
     ctx.check("return MassAction([self.param])" in t and "return self.param" in t, CHEM + ":Reaction.rate_expr", "plain-constant->MassAction",
@@ -289,8 +312,14 @@ def r4_accumulation(ctx):
                         good = False
             else:
                 good = False
-        has_add = "+=" in kinds
+        has_add = "+=" in kinds and "=" in kinds
         ctx.check(good and has_add, a, "sum-per-key", "contributions must be summed per substance key (result[k] = v first, += v afterwards); found %s" % [(U(u.key), u.kind, U(u.value)) for u in ups], node=inner[0])
+    init = [n for n in fn.body if isinstance(n, ast.Assign) and U(n.targets[0]) == "result"]
+    ctx.check(len(init) == 1 and U(init[0].value) in ("{}", "dict()") and fn.body.index(init[0]) < fn.body.index(lp), a, "starts-empty",
+              "result must start as an empty dict before the accumulation loop", node=fn)
+    d = none_default(fn, "ratexs")
+    ctx.check(d is not None and U(d) in ("[None] * self.nr", "[None] * len(self.rxns)"), a, "default-ratexs",
+              "without ratexs every reaction uses its own rate expression: `if ratexs is None: ratexs = [None] * self.nr`; found %s" % (U(d) if d is not None else None), node=fn)
     # CSTR term
     cs = None
     for n in walk_shallow(fn):
@@ -335,7 +364,7 @@ def _dcdt(ctx):
     ok = bool(s_ and r_ and len(ups) == 1 and ups[0].kind == "+=" and U(ups[0].key) == s_)
     if ok:
         c, p = monomial(ups[0].value)
-        ok = c == 1 and set(p) == {"net_stoichs[%s, %s]" % (r_, s_), "rates[%s]" % r_}
+        ok = c == 1 and p == {"net_stoichs[%s, %s]" % (r_, s_): {"1": F1}, "rates[%s]" % r_: {"1": F1}}
     ctx.check(ok, a, "f[s]+=N[r,s]*rates[r]", "dCdt must accumulate net_stoichs[r, s] * rates[r] into f[s] for all r < nr, s < ns; found %s" % (U(ups[0].stmt) if ups else None), node=fn)
     asg = [n for n in walk_shallow(fn) if isinstance(n, ast.Assign) and U(n.targets[0]) == "net_stoichs"]
     ctx.check(bool(asg) and U(asg[0].value) == "rsys.net_stoichs()", a, "uses-net-stoichs", "net_stoichs = %s" % (U(asg[0].value) if asg else None), node=fn)
